@@ -13,8 +13,22 @@ COMMON_TRUSTED = [
     "badger v2, gorilla/websocket, go-ethereum crypto",
 ]
 
+HOOK_COMMITS = ["e10a9bd"]
+
+# properties not claimed, with the reason (none: every property has an executable model)
+NOT_APPLICABLE = {}
+
 PROPS = {
     "C05": {
+        "level_text": "Coq theorems over the executable nonce models for every history, identity and instant: "
+                      "accept-iff, strictly increasing acceptances, at-most-once replay, isolation, refinement of the "
+                      "TTL-based persistent driver to the high-water-mark model (any clock), at-most-one winner among "
+                      "racing duplicates under optimistic transactions (any interleaving). Tied to the code by "
+                      "in-kernel evaluation of the models on histories executed by both real drivers.",
+        "level_note": "Trusted: Coq kernel; badger's TTL/visibility and conflict semantics as modelled; the memory "
+                      "driver's mutex; the recorded clock standing for the driver's own time.Now() (nonces kept away "
+                      "from window edges); harness and driver code.",
+        "technique": "Coq proof (induction over histories / schedules) + vm_compute correspondence against both drivers",
         "harness": "c05",
         "imports": ["Base", "Nonce", "Check05"],
         "case_type": "c05_case",
